@@ -12,6 +12,8 @@
 (*      a rendering produced by the harness: the text, read by Present!Lex and *)
 (*      Zone!ParseEntry, must spell exactly the abstract lines it was made     *)
 (*      from (pure-function event; a failure is a harness bug).                *)
+(*      illtext{text, ill}: the text is lexically ill-formed in the given way  *)
+(*      (or, ill = "nested", a $GENERATE that expands to a $GENERATE).         *)
 (* C07  parser{allowed, chain}  next{res: rr | err | eof, id}  open{path}      *)
 (*      the safety side of Zone's machine with the line content abstracted     *)
 (*      away: these events drive Zone's own variables err / out / opens.  A    *)
@@ -50,6 +52,18 @@ SpellEv ==
      IF r.st = "ok" /\ ~r.amb /\ ~r.odd /\ r.lines = Ev.lines THEN TRUE ELSE MarkBad(l)
   /\ UNCHANGED <<S, tcfg, perr, chain, zvars>>
 
+\* a text the harness built to be lexically ill-formed in a given way
+\* ill = "nested": the text is a $GENERATE whose owner template expands to $GENERATE (whatever follows)
+NestedGenerate(text) ==
+  LET L == Lex(text)  its == Items(L.toks) IN
+  /\ L.ill = "" /\ Len(its) >= 3 /\ L.toks[1].k = "tok"
+  /\ Upper(its[1].raw) = kGENERATE /\ RangeOf(its[2].raw).ok
+  /\ LET s == Subst(its[3].raw, RangeOf(its[2].raw).lo) IN s.st = "ok" /\ Upper(s.s) = kGENERATE
+IllEv ==
+  /\ Ev.ev = "illtext"
+  /\ (IF (IF Ev.ill = "nested" THEN NestedGenerate(Ev.text) ELSE Lex(Ev.text).ill = Ev.ill) THEN TRUE ELSE MarkBad(l))
+  /\ UNCHANGED <<S, tcfg, perr, chain, zvars>>
+
 \* ---- C07: Zone's variables driven by what was observed at the parser's surface
 Rest == <<pol, origin, lastOwner, dirTTL, lastTTL, errln, undef, depth, nline>>
 ParserEv == /\ Ev.ev = "parser"
@@ -79,7 +93,7 @@ NoCfg == [defTTL |-> -1, origin |-> NoName, incAllowed |-> FALSE, files |-> <<>>
 Init == /\ l = 1 /\ HWInit /\ S = {} /\ tcfg = NoCfg /\ perr = 0 /\ chain = FALSE
         /\ ZInit(NoCfg) /\ pol = [io |-> FALSE, it |-> FALSE, go |-> FALSE, gt |-> FALSE]
 Next == /\ l <= Len(Trace)
-        /\ StartEv \/ LineEv \/ SpellEv \/ ParserEv \/ NextRR \/ NextErr \/ NextEOF \/ OpenEv
+        /\ StartEv \/ LineEv \/ SpellEv \/ IllEv \/ ParserEv \/ NextRR \/ NextErr \/ NextEOF \/ OpenEv
         /\ HW(l)
         /\ l' = l + 1
 =============================================================================
